@@ -156,7 +156,7 @@ class Sim:
                      gate=self.gatepath if gated else None,
                      gatecls=gatecls or ("mso" if self.gate_m else "s"), gateprog=self.gate_progs, datacap=256)
         if self.qq_tee and role.startswith("send"):
-            e["QMAILQUEUE"] = os.path.join(core.VERIF, "bin", "qq-rec")
+            e["QMAILQUEUE"] = shim.tool("qq-rec")
             e["NQV_REC"] = self.rec
             e["NQV_QQ_PLAN"] = "tee"
         if extra:
